@@ -37,6 +37,10 @@ pub struct QlStats {
     pub counters: Counts,
 }
 
+fn always(_h: u32) -> bool {
+    true
+}
+
 fn gen_sched(rng: &mut Rng, nthreads: usize, sites: &[u16]) -> (Policy, Vec<Stall>) {
     let policy = match rng.below(10) {
         0..=4 => {
@@ -81,14 +85,30 @@ fn run_queue(cfg: &QlCfg, eseed: u64, idx: u64, st: &mut QlStats) {
             init.push(v);
         }
     }
-    let nthreads = rng.range(2, 4) as usize;
+    // every fourth execution: a long prefilled queue and consumers only (long losing streaks at the head)
+    let contended = rng.chance(1, 4);
+    if contended {
+        let h = collector.register();
+        let g = h.pin();
+        for i in 0..40u64 {
+            let v = (98u64 << 32) | i;
+            q.push(v, &g);
+            init.push(v);
+        }
+    }
+    let nthreads = if contended { 4 } else { rng.range(2, 4) as usize };
     let sites = [
         S::Q_PUSH_TAIL, S::Q_PUSH_NEXT, S::Q_PUSH_HELP, S::Q_PUSH_LINK, S::Q_PUSH_LINK, S::Q_PUSH_SWING, S::Q_PUSH_SWING, S::Q_POP_HEAD,
         S::Q_POP_NEXT, S::Q_POP_NEXT, S::Q_POP_CAS, S::Q_POP_CAS, S::Q_POP_TAIL, S::Q_POP_FIX, S::Q_POP_READ, 120,
     ];
-    let (policy, stalls) = gen_sched(&mut rng, nthreads, &sites);
+    let (policy, mut stalls) = gen_sched(&mut rng, nthreads, &sites);
+    if contended {
+        // one consumer is held before every head CAS while the others pop
+        stalls.push(Stall { thread: 0, site: S::Q_POP_CAS, kth: 1, max_steps: *rng.pick(&[25u64, 60, 120]), epochs: 0, when: Some(always), repeat: true, until: None });
+    }
     let desc = J::obj()
         .set("check", "c17")
+        .set("contended", contended)
         .set("mode", format!("{:?}", cfg.mode))
         .set("seed", cfg.seed)
         .set("shard", cfg.shard)
@@ -105,8 +125,8 @@ fn run_queue(cfg: &QlCfg, eseed: u64, idx: u64, st: &mut QlStats) {
         let hist = hist.clone();
         let tseed = mix(eseed, 500 + t as u64);
         // roles: producer-heavy, consumer-heavy or mixed
-        let role = rng.below(3);
-        let nops = rng.range(3, 8);
+        let role = if contended { 3 } else { rng.below(3) };
+        let nops = if contended { rng.range(8, 13) } else { rng.range(3, 8) };
         bodies.push(Box::new(move || {
             let mut rng = Rng::new(tseed);
             let h = c.register();
@@ -118,6 +138,7 @@ fn run_queue(cfg: &QlCfg, eseed: u64, idx: u64, st: &mut QlStats) {
                 let push = match role {
                     0 => r < 7,
                     1 => r < 2,
+                    3 => false,
                     _ => r < 5,
                 };
                 let inv = mon::stamp();
@@ -129,7 +150,8 @@ fn run_queue(cfg: &QlCfg, eseed: u64, idx: u64, st: &mut QlStats) {
                 } else if rng.chance(1, 2) {
                     (QCall::Pop, q.try_pop(&g))
                 } else {
-                    let k = rng.range(2, 3);
+                    // k = 1: a predicate that always holds
+                    let k = if role == 3 || rng.chance(1, 4) { 1 } else { rng.range(2, 3) };
                     let rr = rng.below(k);
                     (QCall::PopIf(k, rr), q.try_pop_if(|v| *v % k == rr, &g))
                 };
@@ -205,7 +227,33 @@ fn run_queue(cfg: &QlCfg, eseed: u64, idx: u64, st: &mut QlStats) {
         }
         last.insert(key, v & 0xffff_ffff);
     }
-    let mut budget = 3_000_000u64;
+    // an empty result of a pop whose predicate always holds needs an instant at which the queue was empty:
+    // an element whose push returned before the call and whose pop was invoked after it refutes that
+    {
+        let mut push_ret: HashMap<u64, u64> = init.iter().map(|v| (*v, 0u64)).collect();
+        let mut pop_inv: HashMap<u64, u64> = HashMap::new();
+        for o in &ops {
+            if let QCall::Push(v) = o.call {
+                push_ret.insert(v, o.res);
+            }
+            if let Some(v) = o.ret {
+                pop_inv.insert(v, o.inv);
+            }
+        }
+        for o in &ops {
+            let always_true = matches!(o.call, QCall::Pop) || matches!(o.call, QCall::PopIf(1, _));
+            if always_true && o.ret.is_none() {
+                if let Some((v, _)) = push_ret.iter().find(|(v, pr)| **pr < o.inv && pop_inv.get(v).map_or(true, |pi| *pi > o.res)) {
+                    mon::violation(
+                        "C17",
+                        "C17|empty-result-on-nonempty-queue",
+                        format!("t{} {:?} @{}..{} returned None although {:#x} was in the queue during the whole call", o.thread, o.call, o.inv, o.res, v),
+                    );
+                }
+            }
+        }
+    }
+    let mut budget = if contended { 200_000u64 } else { 3_000_000u64 };
     match hist::check_queue(&init, &ops, &mut budget) {
         LinResult::Ok => {}
         LinResult::Inconclusive => st.lin_inconclusive += 1,
